@@ -30,9 +30,10 @@ Definition judge_C15_pda (P : pda) (limit : nat) (runs : list (word * option (op
   worst_code (check (pda_wf_b P) 9 :: map (fun x => let '(w, o) := x in
      let '(v, tr) := pda_accepts pick_head P limit w in
      match o with
-     | None => if tr then 1 else 30
+     (* v = true is sound even when a closure was truncated (C09): the word is accepted, so a run must be returned in finite time *)
+     | None => if v then 30 else if tr then 1 else 30
      | Some (Some run) => check (pda_run_ok P w run) 31           (* a returned run must always be genuine *)
-     | Some None => if tr then 1 else check (negb v) 33
+     | Some None => if v then 33 else if tr then 1 else 0
      end) runs).
 
 (* CNF grammar, non-empty words: mode 0 leftmost, 1 rightmost; o = None: raised *)
